@@ -263,7 +263,10 @@ def run_cbmc(b, ob, witness=False, backend=None, cap=None):
 
 def parse_vin(out):
     """successive values drawn by vin_u64() as shown in the CBMC trace"""
-    return [int(m.group(1)) & (2**64 - 1) for m in re.finditer(r'^\s*vin_value__=(-?\d+)', out, re.M)]
+    # with several failed properties CBMC prints one trace per property: use the first trace only
+    parts = re.split(r'^Trace for ', out, flags=re.M)
+    first = parts[1] if len(parts) > 1 else out
+    return [int(m.group(1)) & (2**64 - 1) for m in re.finditer(r'^\s*vin_value__=(-?\d+)', first, re.M)]
 
 # ------------------------------------------------------------------ one obligation, end to end
 def process_ob(b, ob, log, seed, replay_dir):
